@@ -112,6 +112,13 @@ def run_spec(draw):
         spec["nested"] = True
     else:
         spec["tree"] = {"name": "root", "kind": "FixedIncomeStrategy", "algos": algos, "children": children}
+    if not spec.get("nested") and draw(st.integers(0, 3)) == 0:
+        # an overlay algo trades one of the targets first (default flags: the tree is only marked stale) and nothing reads the tree before
+        # SetNotional + Rebalance size every target - each still ends on weight x notional
+        t_ = draw(st.sampled_from(sorted(spec["weights"])))
+        i_ = [a[0] for a in spec["tree"]["algos"]].index("WeighSpecified")
+        spec["tree"]["algos"].insert(i_, ["TradeNoUpdate", {"child": t_, "frac": 0.0, "units": draw(st.sampled_from([1000.0, -2500.0, 100000.0]))}])
+        spec["overlay_before_rebalance"] = True
     if not spec.get("nested") and n >= 4 and draw(st.integers(0, 2)) == 0:
         # the notional schedule is only published on some dates (rebalance dates, or from a later start): it is read by date, and the
         # stack stops on a date the schedule does not have
